@@ -86,6 +86,7 @@ def base_models():
                 "components": [{"name": "C0", "tasks": [1], "children": [1]}, {"name": "C1", "tasks": [0]}],
                 "workplaces": [{"name": "WP0", "cap": 2.0, "targets": [0, 1], "facilities": [{"name": "F0", "skills": full(names), "cost": 1.0}]}],
                 "teams": [{"name": "TM0", "targets": [0, 1], "workers": [{"name": "W0", "skills": full(names), "fskills": {"F0": 1.0}, "cost": 2.0}]}]})
+    out.append(dict(out[-1], product_wire="register-and-link"))  # the same product grown step by step: assembly registered, part hung under it, part registered
     return out
 
 
